@@ -643,7 +643,7 @@ package decoder
 // invalid bytes); readBuf must therefore never shrink the window when it doubles. Not part of it: "cursor <= length" and "everything from length on is NUL" - readBuf
 // shortens the window at the first NUL byte of the data, so neither holds for inputs that contain
 // NUL bytes (outside the claim; see the bounded stand-in).
-//@ spec wfStream(s) := s != nil && 0 <= s.cursor && s.cursor < len(s.buf) && 0 <= s.length && s.length < len(s.buf) && len(s.buf) <= cap(s.buf) && len(s.buf) <= 4611686018427387903 && 0 <= s.bufSize && s.bufSize <= 4611686018427387903 && s.buf[len(s.buf) - 1] == 0
+//@ spec wfStream(s) := s != nil && 0 <= s.cursor && s.cursor < len(s.buf) && 0 <= s.length && s.length < len(s.buf) && len(s.buf) <= cap(s.buf) && len(s.buf) <= 4611686018427387903 && 0 <= s.bufSize && s.bufSize <= 4611686018427387903 && s.buf[len(s.buf) - 1] == 0 && region(ptrOf(s.buf), len(s.buf))
 
 //@ func io.Reader.Read(r, p) (n, err)
 //@   props C09 C06
@@ -909,3 +909,56 @@ package decoder
 //@   ensures ncalls("uintDecoder.op") == old(ncalls("uintDecoder.op")) || ncalls("uintDecoder.op") == old(ncalls("uintDecoder.op")) + 1
 //@   ensures ncalls("uintDecoder.op") != old(ncalls("uintDecoder.op")) ==> callarg("uintDecoder.op", 1) == p && fitsUint(callarg("uintDecoder.op", 2), old(d.kind))
 //@   assigns all
+
+// ---------------------------------------------------------------- stream helpers: safety and window invariant (C06, C09)
+//@ func (*Stream).skipWhiteSpace(s) (c)
+//@   props C06 C09
+//@   requires wfStream(s)
+//@   ensures wfStream(s) && s.cursor >= old(s.cursor) && !ws(c)
+//@   assigns all
+//@   loop 1: invariant wfStream(s) && s.cursor >= old(s.cursor) && p == ptrOf(s.buf)
+
+//@ func (*Stream).equalChar(s, c) (eq)
+//@   props C06 C09
+//@   requires wfStream(s)
+//@   ensures wfStream(s) && s.cursor == old(s.cursor)
+//@   assigns all
+
+//@ func (*Stream).PrepareForDecode(s) (err)
+//@   props C06 C09
+//@   requires wfStream(s)
+//@   ensures wfStream(s) && s.cursor >= old(s.cursor)
+//@   assigns all
+//@   loop 1: invariant wfStream(s) && s.cursor >= old(s.cursor)
+
+//@ func (*Stream).More(s) (more)
+//@   props C06 C09
+//@   requires wfStream(s)
+//@   ensures wfStream(s) && s.cursor >= old(s.cursor)
+//@   assigns all
+//@   loop 1: invariant wfStream(s) && s.cursor >= old(s.cursor)
+
+//@ func (*Stream).TakeReadError(s) (err)
+//@   props C09
+//@   requires s != nil
+//@   assigns Stream.readErr
+
+//@ func (*Stream).stat(s) (b, c, p)
+//@   props C09 C06
+//@   trusted reads the data word of the slice header through unsafe.Pointer
+//@   requires s != nil
+//@   ensures b == s.buf && c == s.cursor && p == ptrOf(s.buf)
+//@   assigns nothing
+
+//@ func (*Stream).statForRetry(s) (b, c, p)
+//@   props C09 C06
+//@   trusted steps the cursor back by one and reads the data word of the slice header through unsafe.Pointer
+//@   requires s != nil
+//@   ensures s.cursor == old(s.cursor) - 1 && b == s.buf && c == s.cursor && p == ptrOf(s.buf)
+//@   assigns Stream.cursor
+
+// The value skippers of stream mode (skipObject, skipArray, skipValue) are NOT under contract: after a
+// refill behind a backslash they advance once more without knowing that the window has grown, which
+// is safe only if the scanner never stands on the sentinel while the buffer is not marked full - an
+// invariant the NUL-cutting readBuf does not let us state (see wfStream). Covered by the bounded
+// chunking stand-in only.
